@@ -151,6 +151,21 @@ func enumC14(env *engine.Env, yield func(any) bool) {
 			}
 		}
 	}
+	// the same under schema none: the version is taken as written, explicit prerelease and metadata are stated all the same
+	for _, p := range []string{"", "rc1", "beta-2", "0.3.7"} {
+		for _, m := range []string{"", "git", "Build5"} {
+			if p == "" && m == "" {
+				continue
+			}
+			for _, v := range []string{"1.2.3", "v1.2", "2024.01.15"} {
+				for _, f := range Formats {
+					if !yield(C14Case{Part: "verbatim", A: VerCfg{Version: v, Pre: p, Meta: m, Epoch: "1", Release: "2", Schema: "none"}, Why: f}) {
+						return
+					}
+				}
+			}
+		}
+	}
 	// viaenv: the version (and its companions) come from environment references in the document: the package must
 	// state exactly what it states when the same text is written literally
 	for _, v := range []string{"v1.2.3-rc1+git.abc", "1.2.3", "1.2", "v2", "1.2.3-beta-1", "2024.01.05", "1.2.3+meta"} {
